@@ -226,6 +226,43 @@ func c14Units(ctx *core.Ctx) []core.Unit {
 				cmp(fmt.Sprintf("%d openings absorbed, consecutive challenge #%d", cnt, i+2), frToBig(ti.ChallengeScalar([]byte("x"))), tr.Challenge("x"))
 			}
 		}
+		// the same *Element / *fr.Element variable appended repeatedly while the caller changes it in between
+		// (what is absorbed must be the value at the time of the call, not something remembered per address)
+		{
+			ti := common.NewTranscript("alias")
+			tr := ref.NewTranscript("alias")
+			p := banderwagon.Generator
+			rp := ref.Gen()
+			s := frFromBig(bi(5))
+			sv := bi(5)
+			desc := "aliased appends:"
+			for i := 0; i < 12; i++ {
+				ti.AppendPoint(&p, []byte("P"))
+				tr.AppendPoint(rp, "P")
+				ti.AppendScalar(&s, []byte("s"))
+				tr.AppendScalar(sv, "s")
+				desc += fmt.Sprintf(" AppendPoint(&p); AppendScalar(&s); [step %d]", i)
+				if i%3 == 2 {
+					cmp(desc+" ChallengeScalar(c)", frToBig(ti.ChallengeScalar([]byte("c"))), tr.Challenge("c"))
+				}
+				switch i % 4 {
+				case 0:
+					p.Double(&p)
+					rp = ref.Add(rp, rp)
+				case 1:
+					p = reprOf(p, reprProjFlip) // same element, other representation, same address
+				case 2:
+					p.Add(&p, &banderwagon.Generator)
+					rp = ref.Add(rp, ref.Gen())
+				case 3:
+					p.Neg(&p)
+					rp = ref.Neg(rp)
+				}
+				s.Double(&s)
+				sv = ref.AddR(sv, sv)
+			}
+			cmp(desc+" ChallengeScalar(end)", frToBig(ti.ChallengeScalar([]byte("end"))), tr.Challenge("end"))
+		}
 		// length-64 mixed chain
 		ops := c14Menu(ctx.Seed)
 		for rep := 0; rep < 20; rep++ {
